@@ -185,6 +185,9 @@ func (e *FieldExpression) Evaluate(ctx *Context, input system.Collection) (syste
 		// So, it can be cast to a system type. Otherwise, a field is being accessed that
 		// shouldn't be accessed, so the error is returned.
 		if field.Kind() != protoreflect.MessageKind {
+			if field.Kind() == protoreflect.EnumKind && reflect.Get(field).Enum() == 0 {
+				continue // a code without a value (INVALID_UNINITIALIZED): nothing to yield
+			}
 			primitive, err := system.From(message)
 			if err != nil {
 				return nil, err
